@@ -241,7 +241,8 @@ def trace_validation(ctx):
             elif r < 0.25:
                 lines.append({'k': 'global', 'props': {'zz': 'zz', 'color': rnd.choice(['blue', 'green', 'cyan'])}})
             elif r < 0.35:
-                lines.append({'k': rnd.choice(['comment', 'blank', 'badshape', 'badword'])})
+                kk = rnd.choice(['comment', 'blank', 'badshape', 'badword'])
+                lines.append({'k': kk, 'cont': False} if kk == 'badshape' else {'k': kk})
             else:
                 f = frame if frame not in (None, 'physical') else 'fk5'
                 pix = f == 'image'
